@@ -1,6 +1,7 @@
 import JPV.Impl.NonDet
 import JPV.Spec.NonDet
 import JPV.Proofs.NonDetEval
+import JPV.Proofs.Ndp.Segs
 namespace JPV.Proofs
 open JPV JPV.Impl
 
@@ -13,6 +14,7 @@ selector order). -/
 theorem nd_find_permitted (env : Env) (reg : Spec.Registry) (q : Query) (v : Json) (s : ND.Script)
     (hff : Spec.filterFree q = true) (hw : v.WF) (hd : (v.depth : Int) ≤ env.maxDepth) (h1 : 1 ≤ env.maxDepth) :
     ∃ r, ND.find env q v s = .ok r ∧ r ∈ Spec.ND.outcomes reg q v := by
-  sorry
+  have _ := h1
+  exact Ndp.find_permitted env reg q v s hff hw hd
 
 end JPV.Proofs
